@@ -19,5 +19,5 @@ def run(tier):
                    'with their delimiters to the target minus trailing spaces; no scheme/authority for "/" targets; port_number equals the decimal port text in 1..65535, else -1 with the invalid-host flag; '
                    'a sample goes end-to-end through a request line.',
            'samples': big.get('samples', [])[:8], 'runs': res}
-    return v.finish(cov, assumptions=['htp_parse_uri and htp_normalize_parsed_uri are called directly on a real tx/cfg (as the project tests do); 1 in 211 targets also through htp_connp_req_data'],
-                    min_obs={'with_authority': (big.get('with_authority', 0), 1000), 'with_valid_port': (big.get('with_valid_port', 0), 100)})
+    return v.finish(cov, assumptions=['htp_parse_uri and htp_normalize_parsed_uri are called directly on a real tx/cfg (as the project tests do); 1 in 211 targets also through htp_connp_req_data, a third of those after an earlier exchange on the connection and a third as plain HTTP inside an accepted CONNECT tunnel'],
+                    min_obs={'with_authority': (big.get('with_authority', 0), 1000), 'with_valid_port': (big.get('with_valid_port', 0), 100), 'end_to_end_after_history': (big.get('end_to_end_after_history', 0), 1000)})
